@@ -76,9 +76,11 @@ def run_check(pid, harnesses, tier="quick", seed=0, budget=None, level="proof", 
     functions = {}
     samples = []
     new_ledger = {}
+    assumed_in_runs = set()
     for rec in recs:
         hid = rec["harness"]
         functions.update(rec.get("functions", {}))
+        assumed_in_runs.update(rec.get("assumed", []))
         if rec["status"] == "crash":
             crashes.append((hid, rec["reason"], rec.get("trace", "")))
             continue
@@ -178,7 +180,7 @@ def run_check(pid, harnesses, tier="quick", seed=0, budget=None, level="proof", 
     if extra_cov:
         cov.update(extra_cov)
     ev = {"property_id": pid, "tier": tier, "seed": int(seed), "level": level, "coverage": cov,
-          "assumptions": list(assumptions), "wall_s": round(wall, 2), "violations": vio_lines}
+          "assumptions": list(assumptions) + ["assumed inside a contract (never counted as proved): " + a for a in sorted(assumed_in_runs)], "wall_s": round(wall, 2), "violations": vio_lines}
     with open(os.path.join(VERIF, "evidence", f"{pid}.json"), "w") as f:
         json.dump(ev, f, indent=1, default=str)
     print(f"{pid} [{tier}]: harnesses={len(_H)} paths={paths} obligations={n_obl} discharged={n_dis} known={len(set(known_hits))} "
